@@ -132,6 +132,11 @@ PointVal(c, k, n, i) ==    \* k-th point, parameter name n, component i
       z == 3 * k + 5 * n + 2 * i
   IN CASE t \in {HISTOSYS, NORMSYS} -> IF hasNormsys THEN Pick(AlphaInt, z) ELSE Pick(AlphaFrac, z)
        [] OTHER -> Pick(FactorG, z)
+\* symbolic lane: the same point with every normsys-carrying alpha moved to a non-integer value (inside and outside the core)
+SymAlpha == <<RN(1, 2), RN(-1, 2), RN(3, 2), RN(-5, 2), RN(1, 3), RN(-2, 3), RN(5, 4)>>
+SymTheta(c, p) == LET th == ThetaOf(c, p, 0) IN
+   [n \in DOMAIN th |-> IF \E q \in 1..Len(c.modifiers) : c.modifiers[q] = <<n, NORMSYS>>
+                         THEN <<Pick(SymAlpha, n * 3 + Len(p))>> ELSE th[n]]
 \* k = 0 is the suggested initial point
 PointRow(sp, c, k) == Flatten([q \in 1..Len(c.parOrder) |->
                         LET n == c.parOrder[q] IN
@@ -212,6 +217,14 @@ Refines == phase = "eval" =>
   LET p1 == PointRow(spec, cfg, pt)  p2 == PointBatch(spec, cfg, pt) IN
   /\ out.r1 = DefRates(spec, cfg, S, p1, 1)
   /\ out.r2 = DefRates(spec, cfg, S, p2, 2)
+\* the symbolic decomposition coef * prod atoms reproduces the exact rate where the atoms are rational (integer alpha)
+SymConsistent == phase = "eval" /\ S.clipS = <<>> /\ S.clipB = <<>> =>
+  LET th == ThetaOf(cfg, PointRow(spec, cfg, pt), 0) IN
+  \A i \in 1..Len(cfg.channels) :
+     LET sym == DefChannelSym(spec, S, th, cfg.channels[i])  ex == DefChannelRates(spec, S, th, cfg.channels[i]) IN
+     \A b \in DOMAIN ex : ex[b] = RSumSeq([j \in DOMAIN sym[b] |->
+          RMul(sym[b][j].coef, RProdSeq([q \in DOMAIN sym[b][j].atoms |->
+               I1(sym[b][j].atoms[q].lo, ROne, sym[b][j].atoms[q].hi, sym[b][j].atoms[q].alpha)]))])
 \* C10: row independence, stated on the implementation layer
 RowIndep == phase = "eval" =>
   /\ out.r2[1] = out.r1[1]
@@ -274,7 +287,14 @@ Case ==
        aux_data |-> [q \in 1..Len(ao) |-> [name |-> ao[q],
                        vals |-> LET off == SumNat([r \in 1..(q - 1) |-> cfg.psize[ao[r]]])
                                 IN [i \in 1..cfg.psize[ao[q]] |-> AuxData(spec, cfg)[off + i]]]],
-       terms |-> DefTerms(spec, cfg, S, p1, 0, d) ]
+       terms |-> DefTerms(spec, cfg, S, p1, 0, d),
+       \* symbolic lane (no clipping; only where a normsys exists)
+       sym |-> IF S.clipS = <<>> /\ S.clipB = <<>> /\ (\E q \in 1..Len(cfg.modifiers) : cfg.modifiers[q][2] = NORMSYS)
+               THEN LET th == SymTheta(cfg, p1) IN
+                    << [theta |-> [q \in 1..Len(cfg.parOrder) |-> [name |-> cfg.parOrder[q], vals |-> th[cfg.parOrder[q]]]],
+                        chans |-> [i \in 1..Len(cfg.channels) |-> [name |-> cfg.channels[i],
+                                     bins |-> DefChannelSym(spec, S, th, cfg.channels[i])]]] >>
+               ELSE <<>> ]
 
 \* structural hash of the specification (all points and settings of one spec are kept together)
 SpecHash == LET w(cell) == cell[1] * 3 + cell[2]
